@@ -35,7 +35,7 @@ func c11r2(c *Ctx) {
 }
 
 func init() {
-	properties["C11"].Rules = append(properties["C11"].Rules, c11r3, c11r4, c11r5)
+	properties["C11"].Rules = append(properties["C11"].Rules, c11r3, c11r4, c11r5, c11r6)
 }
 
 func isMetaDataPtr(v ssa.Value) bool {
@@ -299,4 +299,11 @@ func c11r5(c *Ctx) {
 			}
 		}
 	}
+}
+
+// c11r6: totality on stored entries rests on every ESDT entry having been written by a built-in function (a non-nil Value,
+// metadata present exactly for NFTs). The user-key writer is the only function that stores caller-chosen bytes: it must not reach
+// the protocol key space (shared with C03-R6) — a planted entry with a nil Value panics in the next transfer that reads it.
+func c11r6(c *Ctx) {
+	c.shareRule(c03r6, "C03-R6", "C11-R6", "no caller-chosen bytes under a protocol key: SaveKeyValue's write is cut by the protected-prefix test on the very key written", nil)
 }
